@@ -82,6 +82,9 @@ func main() {
 					r.Findings = append(r.Findings, q.Findings...)
 				}
 			}
+			if len(os.Args) > 3 && os.Args[2] == "ovf" {
+				r = ruleMulOvf(c, os.Args[3])
+			}
 			if len(os.Args) > 2 && os.Args[2] == "makecap" {
 				r = ruleMakeCapAny(c, func(string) bool { return true })
 			}
